@@ -1,3 +1,6 @@
 import KyberModel.Core.Hex
 import KyberModel.Core.Bytes
 import KyberModel.Core.Arith
+import KyberModel.Groups.Scalar
+import KyberModel.Groups.Edwards
+import KyberModel.Groups.Weierstrass
